@@ -1,4 +1,5 @@
 pub mod c01;
+pub mod c03;
 pub mod c15;
 
 use crate::engine::Property;
@@ -6,6 +7,7 @@ use crate::engine::Property;
 pub fn by_id(id: &str) -> Option<Box<dyn Property>> {
     Some(match id {
         "C01" => Box::new(c01::C01),
+        "C03" => Box::new(c03::C03),
         "C15" => Box::new(c15::C15),
         _ => return None,
     })
@@ -26,6 +28,36 @@ pub fn subcommand(args: &[String]) -> Option<i32> {
                     Some(2)
                 }
             }
+        }
+        "polkadot-stats" => {
+            use scale_typegen::typegen::ir::ToTokensWithSettings;
+            let mut reg = crate::metadata::polkadot().clone();
+            let before: Vec<String> = reg.types.iter().map(|t| t.ty.path.segments.join("::")).collect();
+            let spec = crate::settings::SettingsSpec::default();
+            let settings = spec.build();
+            let direct = scale_typegen::TypeGenerator::new(&reg, &settings).generate_types_mod();
+            println!("direct generation: {}", match &direct { Ok(_) => "ok".to_string(), Err(e) => format!("{e}").chars().take(120).collect() });
+            scale_typegen::utils::ensure_unique_type_paths(&mut reg).unwrap();
+            let mut renamed = vec![];
+            for (i, t) in reg.types.iter().enumerate() {
+                let p = t.ty.path.segments.join("::");
+                if p != before[i] {
+                    renamed.push(format!("{} -> {}", before[i], p));
+                }
+            }
+            println!("types {} renamed {}", reg.types.len(), renamed.len());
+            for r in &renamed {
+                println!("  {r}");
+            }
+            let out = scale_typegen::TypeGenerator::new(&reg, &settings).generate_types_mod();
+            match out {
+                Ok(m) => {
+                    let s = m.to_token_stream(&settings).to_string();
+                    println!("after dedup: ok, {} bytes, hash {:016x}", s.len(), crate::tape::hash_str(&s));
+                }
+                Err(e) => println!("after dedup: {e}"),
+            }
+            Some(0)
         }
         "cfstats" => {
             use crate::tape::{mix, Tape};
